@@ -601,6 +601,8 @@ def sub_from_chords(ctx, shard, n):
                                                                    lambda c: st.lists(c, min_size=1, max_size=2), max_leaves=4), min_size=1, max_size=4),
                                    "duration": st.sampled_from([1, 2, 4]), "on_instrument": st.booleans()})
     ctx.given("from_chords_tuned", check_from_chords_tuned, tuned, 60 if ctx.quick else 600)
+    ctx.enumerate("from_chords_tuned", check_from_chords_tuned, [{"chords": ch, "duration": d, "on_instrument": oi} for ch in (["C", "G", "C"], ["Am", "Am"], [["E7", "E7"], "Am"], ["D", None, "D"])
+                                                                 for d in (1, 2, 4) for oi in (False, True)])
 
 
 def _comp_st():
